@@ -33,6 +33,8 @@ func (interp *Interpreter) gta(root *node, rpath, importPath, pkgName string) ([
 				// TODO(marc): check for a non recoverable error and return it for better diagnostic.
 				err = nil
 			}
+			// The specifications are numbered from zero, whatever the early parse has left.
+			sc.iota = 0
 
 		case blockStmt:
 			if n != root {
